@@ -130,9 +130,20 @@ func (e *Exec) callSSA(caller *frame, pos token.Pos, fn *ssa.Function, args []Va
 		if orig := fn.Origin(); orig != nil {
 			name = orig.String()
 		}
+		if to, ok := e.cfg.Redirect[name]; ok && e.inInit == 0 {
+			if tf := e.redirectTarget(to); tf != fn {
+				return e.callSSA(caller, pos, tf, args, nil)
+			}
+		}
 		if ext, ok := externals[name]; ok {
 			return ext(e, caller, pos, fn, args)
 		}
+		if strings.HasPrefix(fn.Name(), "zzNondetPick") {
+			return extNondetPick(e, caller, pos, fn, args)
+		}
+	}
+	if e.inInit == 0 && (e.pureDepth > 0 || isPureName(fn)) {
+		return e.callPure(caller, pos, fn, args, env)
 	}
 	if e.inInit > 0 && fn.Name() == "init" && fn.Synthetic != "" && len(e.initPkg) > 0 && fn.Pkg != e.initPkg[len(e.initPkg)-1] {
 		return nil // imported package initialisers run lazily
@@ -385,6 +396,11 @@ func (e *Exec) resolve(fr *frame, instr ssa.Instruction, p PtrV) PtrTarget {
 }
 
 func (e *Exec) load(fr *frame, instr ssa.Instruction, p PtrV) Value {
+	if e.pureDepth > 0 && p.isNil() {
+		if u, ok := instr.(*ssa.UnOp); ok {
+			return e.zero(u.Type()) // total load in ghost code
+		}
+	}
 	if len(p.tgs) > 1 {
 		if v, ok := e.mergedLoad(p); ok {
 			return v
@@ -392,6 +408,9 @@ func (e *Exec) load(fr *frame, instr ssa.Instruction, p PtrV) Value {
 	}
 	t := e.resolve(fr, instr, p)
 	if t.p != nil {
+		if len(e.pooled) > 0 && e.pooled[t.p] {
+			e.assertProp(e.ts.False, "use after release: load from an object that is in the pool", e.where())
+		}
 		return copyVal(*t.p)
 	}
 	// symbolic element
@@ -442,6 +461,9 @@ func (e *Exec) storeInto(T types.Type, addr *Value, v Value) {
 }
 
 func (e *Exec) store(fr *frame, instr ssa.Instruction, T types.Type, p PtrV, v Value) {
+	if e.pureFork > 0 {
+		panic(unsupported("store under a symbolic branch inside ghost (spec/pure) code at " + e.where()))
+	}
 	if len(p.tgs) > 1 {
 		if e.mergedStore(T, p, v) {
 			return
@@ -452,6 +474,9 @@ func (e *Exec) store(fr *frame, instr ssa.Instruction, T types.Type, p PtrV, v V
 		e.noteFrozenWrite(fr, instr)
 	}
 	if t.p != nil {
+		if len(e.pooled) > 0 && e.pooled[t.p] {
+			e.assertProp(e.ts.False, "use after release: store to an object that is in the pool", e.where())
+		}
 		e.storeInto(T, t.p, v)
 		return
 	}
@@ -470,6 +495,9 @@ func (e *Exec) store(fr *frame, instr ssa.Instruction, T types.Type, p PtrV, v V
 }
 
 func (e *Exec) fieldAddr(fr *frame, instr ssa.Instruction, p PtrV, field int) PtrV {
+	if e.pureDepth > 0 && p.isNil() {
+		return PtrV{}
+	}
 	if len(p.tgs) == 0 {
 		e.tpanic(fr, instr, "nil pointer dereference (field address)")
 	}
@@ -506,6 +534,9 @@ func (e *Exec) fieldAddr(fr *frame, instr ssa.Instruction, p PtrV, field int) Pt
 func (p *PtrV) nilFieldAddr() {}
 
 func (e *Exec) boundsCheck(fr *frame, instr ssa.Instruction, idx *Term, n int, what string) {
+	if e.pureDepth > 0 && !idx.IsConst() {
+		return // ghost code: total
+	}
 	// 0 <= idx < n (signed compare at idx width)
 	ok := e.ts.And(e.ts.Cmp(OpSLe, e.ts.Const(idx.width, 0), idx), e.ts.Cmp(OpSLt, idx, e.ts.Const(idx.width, uint64(n))))
 	if !e.decide(ok) {
@@ -686,7 +717,7 @@ func (e *Exec) binop(fr *frame, instr ssa.Instruction, op token.Token, tx, ty ty
 		case token.MUL:
 			return ts.Bin(OpMul, xv, yv)
 		case token.QUO, token.REM:
-			if !e.decide(ts.Ne(yv, ts.Const(yv.width, 0))) {
+			if e.pureDepth == 0 && !e.decide(ts.Ne(yv, ts.Const(yv.width, 0))) {
 				e.tpanic(fr, instr, "integer divide by zero")
 			}
 			if signed {
@@ -1486,4 +1517,22 @@ func (e *Exec) callBuiltin(fr *frame, pos token.Pos, fn *ssa.Builtin, args []Val
 		return nil
 	}
 	panic(unsupported("builtin " + fn.Name() + fmt.Sprintf(" on %T", args[0])))
+}
+
+func (e *Exec) redirectTarget(name string) *ssa.Function {
+	if f, ok := e.redirCache[name]; ok {
+		return f
+	}
+	var f *ssa.Function
+	if e.entry != nil {
+		f = e.entry.Pkg.Func(name)
+	}
+	if f == nil {
+		panic(unsupported("redirect target not found in harness package: " + name))
+	}
+	if e.redirCache == nil {
+		e.redirCache = map[string]*ssa.Function{}
+	}
+	e.redirCache[name] = f
+	return f
 }
